@@ -344,6 +344,8 @@ Proof.
     destruct (parts_flat PM e s ps); fin.
   - (* Str *) fin. rewrite text_map. reflexivity.
   - (* Iter *) fin. rewrite map_map. f_equal. f_equal. apply map_ext. intros. rewrite Hdec. reflexivity.
+  - (* RSlice *) pose proof (Hrslice [s] starts ends) as Hr. simpl in Hr. rewrite <- Hr.
+    destruct (p_rslice PM [s] starts ends); fin.
   - (* Idx *) destruct (sel_pos (len s) s0) as [pos|]; [|fin]. rewrite gather_map.
     destruct s0; try (fin; fail). destruct (gather s pos) as [|c [|c2 r]]; fin.
   - (* SetIdx *) destruct (sel_pos (len s) s0) as [pos|]; [|fin]. destruct (negb (nodupb pos)); [fin|].
